@@ -5,6 +5,7 @@ import (
 	"fmt"
 	"math/rand"
 	"reflect"
+	"sort"
 	"strconv"
 	"strings"
 	"time"
@@ -232,8 +233,16 @@ func (p *planner) randomOpts() node.BlockOpts {
 	_, _, mhc := n.BFTHeights()
 	if bound := nextParamsBound(n); bound > mhc && r.Intn(3) == 0 {
 		h := mhc + 1 + uint32(r.Intn(int(bound-mhc)))
-		if ac := p.aggregateFor(h, 0); ac != nil {
-			o.AggregateCommit = ac
+		if r.Intn(3) == 0 {
+			// signed by a random sufficient subset (any positions of the key list) instead of everybody
+			if ks := p.keyedSet(h); ks != nil {
+				o.AggregateCommit = ks.aggregate(ks.randomQuorum(r))
+			}
+		}
+		if o.AggregateCommit == nil {
+			if ac := p.aggregateFor(h, 0); ac != nil {
+				o.AggregateCommit = ac
+			}
 		}
 	}
 	if o.AggregateCommit == nil {
@@ -342,6 +351,7 @@ type mutant struct {
 	b             *blockchain.Block
 	injectInit    bool
 	vc            *node.ValidatorChange // parameter change executed by the block (for the planner's bookkeeping)
+	always        bool                  // harmless alteration that is offered as candidate at every probe (not sampled)
 }
 
 func garbage(r *rand.Rand, n int) []byte {
@@ -606,6 +616,18 @@ func (p *planner) mutants(o node.BlockOpts, b0 *blockchain.Block, heavy bool) []
 			if k := len(p.paramsVals(h)); k > 1 {
 				if weak := p.aggregateFor(h, 1); weak != nil && p.weightOfFirst(h, 1) < p.certThreshold(h) {
 					withAC("ac-below-threshold", expReject, weak)
+				}
+			}
+			// signer SUBSETS at arbitrary positions of the key list: the commit is valid iff the TRUE weight
+			// of the flagged validators reaches the certificate threshold - not the weight of as many
+			// leading / trailing positions, not the number of signers, not the weight of the others
+			if ks := p.keyedSet(h); ks != nil {
+				for _, sm := range ks.subsetAlterations(r) {
+					n0 := len(res)
+					withAC(sm.label, sm.expect, ks.aggregate(sm.positions))
+					for i := n0; i < len(res); i++ {
+						res[i].always = sm.expect == expAccept
+					}
 				}
 			}
 		}
@@ -882,16 +904,22 @@ func planCase(rng *rand.Rand, c caseCfg, blocks int, probeEvery int) ([]string, 
 			// Accepted candidates cost the runner a rebuild of the node: only a sample of the
 			// harmless alterations is offered as candidate, another one continues the history.
 			rng.Shuffle(len(harmless), func(a, b int) { harmless[a], harmless[b] = harmless[b], harmless[a] })
-			for k, m := range harmless {
-				if k < maxAcceptedCandidates {
+			// the aggregate-commit subset alterations are offered at every probe, the others are sampled
+			sort.SliceStable(harmless, func(a, b int) bool { return harmless[a].always && !harmless[b].always })
+			sampled := 0
+			for _, m := range harmless {
+				if m.always || sampled < maxAcceptedCandidates {
 					p.emit("cand", m.label, m.expect, p.viaOf(m.b), m.b, m.injectInit)
+				}
+				if !m.always {
+					sampled++
 				}
 			}
 			if p.n.Height() > 0 {
 				p.emit("cand", "identical-tip", expIgnore, "P", p.n.Tip(), false)
 			}
-			if len(harmless) > maxAcceptedCandidates && rng.Intn(2) == 0 {
-				m := harmless[maxAcceptedCandidates]
+			if k := len(harmless) - 1; k >= 0 && !harmless[k].always && sampled > maxAcceptedCandidates && rng.Intn(2) == 0 {
+				m := harmless[k] // a harmless alteration that was not offered as candidate continues the history
 				label, vc, next = m.label, m.vc, m.b
 			}
 		}
